@@ -5,6 +5,8 @@ import time
 
 from . import common as C
 from . import e1
+from . import e4
+from . import srcscan
 
 TRUSTED = [
     "Coq 8.16.1 kernel (coqc; vm_compute used for Example/refutation witnesses and for case evaluation; no native_compute)",
@@ -23,6 +25,9 @@ TABLE = {
     "C13": {"props": "C13.v", "engines": ["e1"], "oracle": ["C13"], "components": ["step", "build", "max_size", "max_type_align", "display"]},
     "C18": {"props": "C18.v", "engines": ["e1"], "oracle": ["C18"], "components": ["step"]},
     "C20": {"props": "C20.v", "engines": ["e1"], "oracle": ["C20"], "components": ["convert"]},
+    "C08": {"props": "C08.v", "engines": ["e4"]},
+    "C09": {"props": "C09.v", "engines": ["e4"]},
+    "C10": {"props": "C10.v", "engines": ["e4"]},
 }
 
 
@@ -31,19 +36,13 @@ def relevant(diff, comps):
     return any(c == x or c.startswith(x) for x in comps)
 
 
-def run(prop, tier, seed, t0):
-    cfg = TABLE[prop]
-    C.log("== %s tier=%s seed=%d" % (prop, tier, seed))
-    # ---------------------------------------------------------------- proofs
-    ok, out, secs = C.coq_build()
-    gate = C.coq_source_gate()
-    if not ok:
-        C.log(out[-3000:])
-    pok, theorems, assum, pout = (False, [], {}, "") if not ok else C.coq_props(cfg["props"])
-    proof_ok = ok and not gate and pok
-    C.log("coq: build %s (%.0fs), source gate %s, %s: %d statements, assumptions %s" % (
-        "ok" if ok else "FAILED", secs, "ok" if not gate else gate[:3], cfg["props"], len(theorems), assum))
-    # ---------------------------------------------------------------- correspondence
+
+E1_RULE = ("request histories: corpus + PRNG(seed) random (1-12 variants, 16-shape palette + random shapes incl. zero-size, "
+           "odd sizes, non-power-of-two alignments, 5 entry points, 40% of histories carry invalid/probing requests) "
+           "+ small-scope enumeration slice; non-trivial = at least 2 closed variants and 2 accepted adds; distinct = distinct request text")
+
+
+def engine_e1(prop, cfg, tier, seed, kf, broken):
     res = e1.run_e1(tier, seed)
     C.log("E1: %s%s" % (json.dumps(res["counts"]), " (cached run)" if res.get("cached") else ""))
     oracle_hits = [o for o in res["oracle"] if o["property"] in cfg["oracle"]]
@@ -51,7 +50,6 @@ def run(prop, tier, seed, t0):
     if res["coq_errors"]:
         diffs.append({"source": "vm_compute", "case": -1, "history": "", "component": "step",
                       "where": "coqc failed on a cases file", "implementation": "", "model": res["coq_errors"][0]})
-    kf = C.known_findings()
     known_keys = {k["key"]: k for k in kf["open"] if k["property"] == prop}
     violations = []
     for o in oracle_hits:
@@ -62,10 +60,6 @@ def run(prop, tier, seed, t0):
                            "found_by": "property oracle on the implementation's own output (%s)" % o["source"],
                            "replay": "./check %s --replay <this file>" % prop})
         break
-    broken = []
-    if not proof_ok:
-        broken.append("proof obligation: coq/Props/%s does not check (%s)" % (
-            cfg["props"], "build failed" if not ok else ("source gate: %s" % gate[:2] if gate else "assumptions/compile: %s" % assum)))
     if diffs:
         d = diffs[0]
         broken.append("correspondence E1 (model vs implementation) differs at %s of history `%s`: implementation %s, model %s" % (
@@ -89,21 +83,95 @@ def run(prop, tier, seed, t0):
                                "first_diverging_case": diffs[0] if diffs else None,
                                "note": "the property oracle holds on every implementation output explored; "
                                        "either the model must follow a harmless change of the code, or the search was not deep enough"})
+    info = {"evaluations": sum(v for k, v in res["counts"].items() if not k.endswith("_diffs")),
+            "distinct": sum(s.get("distinct_nontrivial", 0) for s in res["stats"].values()),
+            "rule": E1_RULE, "samples": res["samples"], "counts": res["counts"], "coq_cases": res["coq_cases"],
+            "stats": res["stats"], "ndiffs": len(diffs), "noracle": len(oracle_hits)}
+    return violations, info
+
+
+E4_RULE = ("vector conversion cases: for every length up to the tier's bound EVERY script that matters (prefix of convert/abandon, each with or "
+           "without modifying the previous output, optionally ended by an error return or one of three panic kinds), for 4 element pairs "
+           "(owned heap values, 64-byte align-32, zero-size with drop glue, plain u32), capacity = length and larger; PRNG(seed) long vectors; "
+           "the size/alignment mismatch matrix (8 pairs x 5 lengths) in a separate process; every case in dev and release; "
+           "distinct = distinct (pair, length, script up to the failure)")
+
+
+def engine_e4(prop, cfg, tier, seed, kf, broken):
+    res = e4.run_e4(tier, seed)
+    C.log("E4: %s kinds=%s%s" % (json.dumps(res["counts"]), res["kinds"], " (cached run)" if res.get("cached") else ""))
+    oracle_hits = [o for o in res["oracle"] if o["property"] == prop]
+    diffs = [d for d in res["diffs"] if d["property"] == prop]
+    if res.get("coq_error"):
+        diffs.append({"property": prop, "profile": "vm_compute", "case": "", "implementation": "", "model": res["coq_error"]})
+    violations = []
+    if oracle_hits:
+        o = oracle_hits[0]
+        violations.append({"kind": "failing-input", "property": prop, "case": o["case"], "profile": o["profile"], "what": o["what"],
+                           "format": "<element pair> <length> <extra capacity> <script codes: 2*action+modify_prev; actions 0 convert 1 abandon 2 Err 3-5 panic>",
+                           "found_by": "ledger / allocator oracle on the implementation (E4)"})
+    if diffs:
+        d = diffs[0]
+        broken.append("correspondence E4 (model vs implementation, %s) differs on case `%s`: implementation %s, model %s" % (
+            d["profile"], d["case"], d["implementation"], d["model"]))
+    if broken and not violations:
+        # the explored space is exhaustive up to the bound, so the search is the oracle over the same run;
+        # a thorough-tier sweep is the deeper search
+        if tier != "thorough":
+            deeper = e4.run_e4("thorough", seed)
+            hits = [o for o in deeper["oracle"] if o["property"] == prop]
+            if hits:
+                o = hits[0]
+                violations.append({"kind": "failing-input", "property": prop, "case": o["case"], "profile": o["profile"], "what": o["what"],
+                                   "broken": broken, "found_by": "thorough sweep after a broken proof/correspondence"})
+        if not violations:
+            violations.append({"kind": "no-failing-input-found", "property": prop, "broken": broken,
+                               "first_diverging_case": diffs[0] if diffs else None,
+                               "note": "ledger and allocator oracles hold on every case explored"})
+    n = res["kinds"].get(prop, 0)
+    info = {"evaluations": 2 * n, "distinct": res["distinct"] if prop != "C10" else res["kinds"].get("C10", 0),
+            "rule": E4_RULE, "samples": res["samples"], "counts": res["counts"], "coq_cases": res.get("coq_cases", 0),
+            "stats": {"cases_by_model_outcome": res["kinds"]}, "ndiffs": len(diffs), "noracle": len(oracle_hits)}
+    return violations, info
+
+
+ENGINES = {"e1": engine_e1, "e4": engine_e4}
+
+
+def run(prop, tier, seed, t0):
+    cfg = TABLE[prop]
+    C.log("== %s tier=%s seed=%d" % (prop, tier, seed))
+    # ---------------------------------------------------------------- proofs
+    scan = srcscan.write_current()
+    ok, out, secs = C.coq_build()
+    gate = C.coq_source_gate()
+    if not ok:
+        C.log(out[-3000:])
+    pok, theorems, assum, pout = (False, [], {}, "") if not ok else C.coq_props(cfg["props"])
+    proof_ok = ok and not gate and pok
+    C.log("coq: build %s (%.0fs), source gate %s, %s: %d statements, assumptions %s" % (
+        "ok" if ok else "FAILED", secs, "ok" if not gate else gate[:3], cfg["props"], len(theorems), assum))
+    # ---------------------------------------------------------------- correspondence
+    kf = C.known_findings()
+    broken = []
+    if not proof_ok:
+        broken.append("proof obligation: coq/Props/%s does not check (%s)" % (
+            cfg["props"], "build failed" if not ok else ("source gate: %s" % gate[:2] if gate else "assumptions/compile: %s" % assum)))
+    eng = ENGINES[cfg["engines"][0]]
+    violations, info = eng(prop, cfg, tier, seed, kf, broken)
     # ---------------------------------------------------------------- evidence
     nobl = len(theorems)
-    evaluations = sum(v for k, v in res["counts"].items() if not k.endswith("_diffs"))
-    distinct = sum(s.get("distinct_nontrivial", 0) for s in res["stats"].values())
+    evaluations = info["evaluations"]
+    distinct = info["distinct"]
     cov = {
         "obligations": max(nobl, 1), "discharged": nobl if proof_ok else 0,
         "checker_cmd": "cd /verif/coq && make -j16 && coqc -Q Model Truc.Model -Q Proofs Truc.Proofs -Q Props Truc.Props Props/%s" % cfg["props"],
         "trusted_base": TRUSTED, "theorems": theorems, "print_assumptions": assum,
         "evaluations": evaluations, "distinct_nontrivial": distinct,
-        "rule": "request histories: corpus + PRNG(seed) random (1-12 variants, 16-shape palette + random shapes incl. zero-size, "
-                "odd sizes, non-power-of-two alignments, 4 entry points, 40% of histories carry invalid/probing requests) "
-                "+ small-scope enumeration slice; non-trivial = at least 2 closed variants and 2 accepted adds; distinct = distinct request text",
-        "samples": res["samples"][:6], "engines": cfg["engines"], "e1_counts": res["counts"],
-        "cases_evaluated_inside_coq": res["coq_cases"], "input_distribution": res["stats"],
-        "model_vs_impl_differences": len(diffs), "oracle_failures": len(oracle_hits),
+        "rule": info["rule"],
+        "samples": info["samples"][:6], "engines": cfg["engines"], "engine_counts": info["counts"],
+        "cases_evaluated_inside_coq": info["coq_cases"], "input_distribution": info.get("stats", {}),
+        "model_vs_impl_differences": info["ndiffs"], "oracle_failures": info["noracle"],
     }
     C.write_evidence(prop, tier, seed, "proof", cov,
                      ["model fidelity is established by differential execution, not proved",
@@ -119,8 +187,8 @@ def run(prop, tier, seed, t0):
     for k in kf["open"]:
         if k["property"] == prop:
             print("KNOWN-FINDING: property=%s %s" % (prop, k["what"]))
-    C.log("%s: holds on everything explored (%d histories, %d inside Coq; %d statements proved, %.0fs)" % (
-        prop, evaluations, res["coq_cases"], nobl, time.time() - t0))
+    C.log("%s: holds on everything explored (%d cases, %d inside Coq; %d statements proved, %.0fs)" % (
+        prop, evaluations, info["coq_cases"], nobl, time.time() - t0))
     return 0
 
 
